@@ -12,9 +12,10 @@ import (
 var errWriterClosed = errors.New("flate: closed writer")
 
 type Writer struct {
-	err error
-	lc  LevelCompressor
-	w   *flate.Writer
+	err    error
+	lc     LevelCompressor
+	w      *flate.Writer
+	closed bool // set at the end of a successful Close (err then holds errWriterClosed for Write and Flush)
 }
 
 func NewWriterwWith4KWindow(under io.Writer, level int) (w *Writer, err error) {
@@ -99,6 +100,7 @@ func (w *Writer) Write(data []byte) (n int, err error) {
 
 func (w *Writer) Reset(under io.Writer) {
 	w.err = nil
+	w.closed = false
 	if w.w != nil {
 		w.w.Reset(under)
 		return
@@ -119,7 +121,7 @@ func (w *Writer) Flush() (err error) {
 }
 
 func (w *Writer) Close() (err error) {
-	if w.err == errWriterClosed {
+	if w.closed {
 		return nil
 	}
 	if w.err != nil {
@@ -134,5 +136,6 @@ func (w *Writer) Close() (err error) {
 		return w.err
 	}
 	w.err = errWriterClosed
+	w.closed = true
 	return nil
 }
